@@ -107,13 +107,33 @@ T("str.equal.bytes", "h_str_equal_bytes", "two strings are = exactly when their 
   [ex(MS_SHORT, "same bytes"), ex(MS_NONEG, "same bytes"), ex(MS_NOLEN, "pointer_dereference|memcmp|same bytes")],
   unwind=MAXLEN + 2, defines=["-DVAL_MAXLEN=%d" % MAXLEN], bound="string lengths <= %d (all byte contents, all cached hashes); memcmp model unwound" % MAXLEN, **{"class": "bounded"},
   assumes=[STR_WF])
-RL = 4
-T("str.equal.realhash", "h_str_equal_bytes", "two well-formed strings (hash = real janet_string_calchash of their bytes) are = exactly when they have the same bytes",
-  ["janet_string_equal", "janet_string_equalconst", "janet_string_calchash"],
-  [ex(MS_SHORT, "same bytes"), ex(MS_NONEG, "same bytes")],
-  link=["util.c"], link_keep={"util.c": ["janet_string_calchash", "janet_hash_mix"]}, tier="thorough", timeout=600,
-  unwind=RL + 2, defines=["-DVAL_MAXLEN=%d" % RL, "-DVAL_REALHASH"], bound="string lengths <= %d (all byte contents); memcmp model and janet_string_calchash unwound" % RL, **{"class": "bounded"},
-  assumes=[STR_WF + ", hash == janet_string_calchash(data, length)"])
+
+# ---------------------------------------------------------------- struct canonical layout (struct.c) -----------------
+MT_TIE = {"name": "put-tie-not-broken-by-compare", "file": "struct.c", "find": "status = janet_compare(key, kv->key);", "replace": "status = -1;"}
+MT_HASH = {"name": "put-hash-order-dropped", "file": "struct.c", "find": "            else if (hash < otherhash)\n                status = -1;\n", "replace": ""}
+MT_DIST = {"name": "put-swap-keeps-old-distance", "file": "struct.c", "find": "                dist = otherdist;\n", "replace": ""}
+
+
+def L(id, n, cap, k, tier, timeout, mutants):
+    units.append({"id": id, "props": ["C03"], "tier": tier, "class": "bounded",
+                  "bound": "%d pairwise distinct keys out of an abstract universe of %d with an arbitrary hash function, capacity %d, every insertion order" % (n, k, cap),
+                  "clause": "structs built from the same key/value pairs in any insertion order have bit-identical bucket arrays (hence the same cached hash), "
+                            "and map every key to its value (compare by content, not by construction order)",
+                  "src": ["struct.c"], "link": ["wrap.c", "util.c"], "link_keep": {"util.c": ["janet_tablen"]},
+                  "harness": ["val_struct.c"], "entry": "h_struct_layout", "mode": "plain", "replace_calls": ["janet_gcalloc:v_gcalloc"],
+                  "defines": ["-DVAL_N=%d" % n, "-DVAL_CAP=%d" % cap, "-DVAL_K=%d" % k], "unwind": max(cap, k + 1) + 2, "timeout": timeout,
+                  "functions": ["janet_struct_put_ext", "janet_struct_begin", "janet_struct_end", "janet_struct_find"],
+                  "checks": ["bounds-check", "pointer-check", "signed-overflow-check", "div-by-zero-check"],
+                  "assumes": ["janet_hash/janet_compare/janet_equals on keys are replaced by their contracts: hash an arbitrary function of the key "
+                              "(symbolic table), compare a consistent total order, equals its equality (the laws proved by units val.*)",
+                              "janet_gcalloc returns a fresh zeroed block of the requested size",
+                              "janet_kv_calchash (cached struct hash) is replaced by a stub: any function of the bucket array; checked to be called on the whole finished array",
+                              "keys are non-nil non-NaN; values are arbitrary non-nil words"],
+                  "mutants": mutants})
+
+
+L("struct.layout.n2", 2, 8, 4, "quick", 120, [ex(MT_TIE, "independent of insertion order"), ex(MT_HASH, "independent of insertion order")])
+L("struct.layout.n3", 3, 8, 4, "thorough", 600, [ex(MT_TIE, "independent of insertion order"), ex(MT_DIST, "independent of insertion order|maps each key|exactly one bucket")])
 
 json.dump({"units": units}, open(os.path.join(V, "units", "C03.json"), "w"), indent=1)
 print(len(units), "units")
